@@ -26,22 +26,16 @@ META = {
 PREFIX_TEXT = {(): "", ("vgi",): "/vgi", ("a", "b"): "/a/b", ("health",): "/health"}
 
 
-def _consts(quick: bool, dev: bool, intended_only: bool = False) -> dict:
-    if intended_only:   # the table invariants do not depend on the credential; one credential keeps this run small
-        c = _consts(quick, dev)
-        c["Creds"] = Raw('{"none"}')
-        if quick:
-            c["PrefixNames"] = Raw('{"vgi"}')
-        return c
+def _consts(quick: bool, dev: bool) -> dict:
     if quick:
         return {"PrefixNames": Raw('{"root", "vgi"}'), "Exts": Raw('{"", "_status"}'),
                 "Kinds": Raw('{"unary", "exchange"}'), "OAuthModes": Raw('{"none", "pkce"}'),
                 "Creds": Raw('{"none", "good"}'), "Verbs": Raw('{"GET", "POST", "OPTIONS", "DELETE"}'),
-                "Dev_PrefixMatch": dev}
+                "Rich": False, "Dev_PrefixMatch": dev}
     return {"PrefixNames": Raw('{"root", "vgi", "ab", "health"}'), "Exts": Raw('{"", "_status", "z", "x"}'),
             "Kinds": Raw('{"unary", "producer", "exchange"}'), "OAuthModes": Raw('{"none", "meta", "pkce"}'),
             "Creds": Raw('{"none", "bad", "good"}'),
-            "Verbs": Raw('{"GET", "POST", "OPTIONS", "HEAD", "DELETE", "PUT"}'), "Dev_PrefixMatch": dev}
+            "Verbs": Raw('{"GET", "POST", "OPTIONS", "HEAD", "DELETE", "PUT"}'), "Rich": True, "Dev_PrefixMatch": dev}
 
 
 def _seg_text(s: dict) -> str:
@@ -164,11 +158,12 @@ def _body_for(world_: _World, case: dict, rel: list, methods: set):
 def run(ctx: Ctx) -> None:
     W.quiet()
     quick = ctx.quick
-    sanity = ["ExemptSubsetOfImpl", "IntendedIsExact", "ReachNeverExempt", "OptionsNeverReach", "LeakOnlyTwoSites"]
-    # (1) intended design: the statement's exemption list must satisfy the table invariants, including NoLeak
-    table.enumerate_cases(ctx, "gate", "AuthGate", constants=_consts(quick, False, True), invariants=sanity + ["NoLeak"],
-                          name="AuthGate:intended", emit=False)
-    # (2) faithful structure of the current code: complete case space + oracle
+    # table invariants: the intended design (dev = FALSE inside the operators) satisfies "only the listed requests
+    # bypass" (IntendedNoLeak / IntendedIsExact).  Dev_PrefixMatch = TRUE only labels (leak # "none") the requests
+    # that the textual prefix match of the code before /repo commit a062be5 let through; the verdict on every case
+    # comes from the real code judged against Exempt(c), never from the label.
+    sanity = ["ExemptSubsetOfImpl", "IntendedNoLeak", "IntendedIsExact", "ReachNeverExempt", "OptionsNeverReach",
+              "LeakOnlyTwoSites"]
     consts = _consts(quick, True)
     rec = getattr(ctx, "replay_record", None)
     if rec:
